@@ -726,7 +726,18 @@ func deadSourceJoin(c *Ctx, jd joinDef, variant int, seed int64) {
 			problems = append(problems, "the destination is not ready (scenario premise)")
 			return
 		}
+		before := sched.LibraryGoroutines()
 		j, err := jd.mk(ctx, src, dst)
+		if err != nil {
+			// a constructor that fails leaves nothing behind: the clone of the
+			// destination it had made is closed again
+			pert.Barrier()
+			time.Sleep(time.Millisecond)
+			sched.Settle()
+			if left := sched.LibraryGoroutines() - before; left > 0 {
+				problems = append(problems, fmt.Sprintf("the constructor failed (%v) and left %d library goroutines behind (a clone of the destination that nobody can reach)", err, left))
+			}
+		}
 		if variant == 1 {
 			time.Sleep(500 * time.Millisecond)
 			src.closeFn()
